@@ -224,8 +224,28 @@ def judge(ctx, cfg, ops, results, env_trace):
     checks, cap, ndirs, _ = cfg
     put = {}            # uri -> version placed by put_string and not since overwritten by a file load
     last_ok = {}        # uri -> (tid, quiet) of the last successful Get with no disk/put change since
+    last_use = {}       # collection key -> index of the last operation that fetched or stored it
     for i, (op, r, tr) in enumerate(zip(ops, results, env_trace)):
         k = op[0]
+        # eviction order: whatever leaves the collection during an operation on another URI was evicted, and every survivor
+        # must have been fetched (or stored) more recently than it
+        own = "/n%d.html" % op[1] if k in ("G", "H", "PS", "PT") else None
+        # (get_template / has_template stamp the entry they return; put_string / put_template stamp only an entry they create)
+        if own is not None and own in tr["keys_after"] and (k in ("G", "H") or own not in tr["keys_before"]):
+            last_use[own] = i
+        if cap != -1:
+            gone = [x for x in tr["keys_before"] - tr["keys_after"] if x != own]
+            for j in gone:
+                for s_ in tr["keys_after"]:
+                    if last_use.get(s_, -1) < last_use.get(j, -1):
+                        ctx.violation({"cfg": cfg, "ops": [op_str(o) for o in ops[:i + 1]], "evicted": j, "kept": s_,
+                                       "evicted_last_fetched_at_op": last_use.get(j), "kept_last_fetched_at_op": last_use.get(s_)},
+                                      "an entry fetched more recently was evicted while a less recently fetched one was kept", tags=["c14.lru.order"])
+                        return
+        if k == "H" and checks and r == "b1" and not tr["exists_in_some_dir"] and not tr["was_put"]:
+            ctx.violation({"cfg": cfg, "ops": [op_str(o) for o in ops[:i + 1]]},
+                          "has_template answered True for a URI that has no file in any directory and was never put", tags=["c14.has_template"])
+            return
         if k in ("W", "D", "C", "R", "PS", "PT"):
             last_ok.clear()
         if k == "G" and cap == -1:
@@ -312,9 +332,15 @@ def run_history(cfg, ops):
                 tr["first_dir_file"] = fd
                 tr["exists_in_some_dir"] = fd is not None
                 tr["was_put"] = u in was_put
+            if op[0] == "H":
+                tr["exists_in_some_dir"] = any(os.path.exists(env.path(d, op[1])) for d in range(env.ndirs))
+                tr["was_put"] = op[1] in was_put
             if op[0] in ("PS", "PT"):
                 was_put.add(op[1])
+            keys_before = set(dict.keys(env.lk._collection))
             r = env.do(op)
+            tr["keys_before"] = keys_before
+            tr["keys_after"] = set(dict.keys(env.lk._collection))
             if op[0] == "G" and r.startswith("ok "):
                 t = env.last
                 tr["filename"] = t.filename
